@@ -261,6 +261,10 @@ func c12Gen(c *core.Ctx) {
 	for _, p := range []string{"*", "*b", "?", "*?", "\ufffd", "\\\ufffd", "[\ufffd]", "a\ufffd*", "*ab", "[!a]*", "*\\\ufffdb"} {
 		core.Do(c, c12Case{Pats: []string{p}, Subjs: []string{"a\ufffd", "a\ufffdb", "\ufffd", "\ufffdab", "x\ufffdab", "日\ufffd", "\ufffd\ufffd", ""}, Kind: "replacement-character"}, c12Exec)
 	}
+	// an escaped : . = right after "[" inside a bracket expression is an ordinary member, not the start of a class
+	for _, p := range []string{`[[\:alpha:]]`, `[![\:digit:]]`, `[a[\.b]`, `[[\=a=]]`, `[[\:]`, `*[[\:alpha:]]`, `[[\:alpha:]]*`} {
+		core.Do(c, c12Case{Pats: []string{p}, Subjs: []string{"z", "a]", ":]", "[]", "5]", "a", "[", ":", "=]", "a=]", ".", "b", "xa]"}, Kind: "escaped-class-opener"}, c12Exec)
+	}
 	// random single and multi-pattern cases
 	n := c.Pick(20000, 400000)
 	for i := 0; i < n; i++ {
